@@ -3,6 +3,7 @@ package actionlint
 import (
 	"fmt"
 	"io"
+	"sort"
 	"time"
 )
 
@@ -64,7 +65,19 @@ func (v *Visitor) Visit(n *Workflow) error {
 		t = time.Now()
 	}
 
+	// Visit jobs in the order of the source. The iteration order of map is random and some rules
+	// depend on the order (e.g. which job reports an error of a local action shared by the jobs).
+	jobs := make([]*Job, 0, len(n.Jobs))
 	for _, j := range n.Jobs {
+		jobs = append(jobs, j)
+	}
+	sort.Slice(jobs, func(i, j int) bool {
+		if jobs[i].Pos == nil || jobs[j].Pos == nil {
+			return jobs[j].Pos != nil
+		}
+		return jobs[i].Pos.IsBefore(jobs[j].Pos)
+	})
+	for _, j := range jobs {
 		if err := v.visitJob(j); err != nil {
 			return err
 		}
